@@ -113,6 +113,7 @@ def validate_group(ctx, gi, paths, out):
 
 def run(ctx):
     q = ctx.quick()
+    __import__("pub_part").run(ctx)       # published filter list -> chain of a new stream (FilterPublish.tla)
     __import__("deny_part").run(ctx)      # the real ipaccess / payloadlimit / faultinject filters (DenyFilters.tla)
     # 1. the design: exhaustive model check, and every named deviation must be rejected
     r = vlib.run_tlc(ctx, "lifecycle", "FilterChain", "FilterChain.cfg" if q else "FilterChain_thorough.cfg")
